@@ -93,7 +93,10 @@ class GpRegressor:
         # store the data
         self.x = x if isinstance(x, ndarray) else array(x)
         self.y = y if isinstance(y, ndarray) else array(y)
-        self.y = self.y.squeeze()
+        # the data are held as float arrays: the mean functions and kernels would
+        # otherwise work in the precision (or integer arithmetic) of the given dtype
+        self.x = self.x.astype(float, copy=False)
+        self.y = self.y.squeeze().astype(float, copy=False)
 
         if self.y.ndim != 1:
             raise ValueError(
@@ -317,7 +320,7 @@ class GpRegressor:
                     """
                 )
 
-            return diag(y_err**2)
+            return diag(y_err.astype(float) ** 2)
         else:
             return zeros([self.n_points, self.n_points])
 
